@@ -1547,6 +1547,8 @@ class SubstitutionHandler(Handler):
             ]
         ] = []
         self.seen_definitions: Optional[Set[str]] = None
+        # Names of the substitution references enclosing the node currently being processed
+        self.active_references: List[str] = []
 
     def enter_node(self, fileid_stack: FileIdStack, node: n.Node) -> None:
         """When a substitution is defined, add it to the page's index.
@@ -1554,6 +1556,26 @@ class SubstitutionHandler(Handler):
         When a substitution is referenced, populate its children if possible.
         If not, save this node to be populated at the end of the page.
         """
+
+        if isinstance(node, (n.SubstitutionReference, n.BlockSubstitutionReference)):
+            # Within a substitution definition, seen_definitions already catches loops
+            is_circular = (
+                self.seen_definitions is None
+                and node.name in self.active_references
+            )
+            self.active_references.append(node.name)
+            if is_circular:
+                # This reference is part of the expansion of a substitution of the same name
+                # (defined in an include's replacements or in snooty.toml): expanding it
+                # again would never end.
+                node.children = []
+                self.context.diagnostics[fileid_stack.current].append(
+                    SubstitutionRefError(
+                        f'Circular substitution definition referenced: "{node.name}"',
+                        node.span[0],
+                    )
+                )
+                return
 
         if isinstance(node, n.Directive):
             if node.name not in {"include", "sharedinclude"}:
@@ -1597,7 +1619,9 @@ class SubstitutionHandler(Handler):
                 self.seen_definitions.add(node.name)
 
     def exit_node(self, fileid_stack: FileIdStack, node: n.Node) -> None:
-        if isinstance(node, n.SubstitutionDefinition):
+        if isinstance(node, (n.SubstitutionReference, n.BlockSubstitutionReference)):
+            self.active_references.pop()
+        elif isinstance(node, n.SubstitutionDefinition):
             self.seen_definitions = None
         elif isinstance(node, n.Directive) and node.name in {
             "include",
@@ -1625,6 +1649,7 @@ class SubstitutionHandler(Handler):
         self.substitution_definitions = {}
         self.include_replacement_definitions = []
         self.unreplaced_nodes = []
+        self.active_references = []
 
     def search_inline(
         self, node: n.SubstitutionReference, fileid_stack: FileIdStack
